@@ -384,12 +384,32 @@ def extra(tier, seed):
     bad("non-controller slave accepted", lambda: DemandSwitch(p, Slave("d"), 1, object()), InvariantError)
     bad("foreign target of a slave accepted", lambda: DemandSwitch(p, Slave("d"), 1, Slave("a", q)), InvariantError)
     bad("foreign target of the default accepted", lambda: DemandSwitch(p, Slave("d", q), 1, Slave("a")), InvariantError)
-    return {"violations": errs, "switch_ctor_rejections_checked": n}
+    # IEEE neighbours of the thresholds (enumerated, concrete): the symbolic run treats floats as reals, and code
+    # that pushes values through C math functions cannot be executed on proxies at all
+    import math
+    m = 0
+    for low, high in ((0.5, 0.5), (0.3, 0.3), (0.25, 0.75), (1e-9, 1.0), (123456.789, 123456.789)):
+        for rate, interval in ((1, 1), (0.5, 4), (3, 0.1)):
+            for util, alloc, sign in (
+                (math.nextafter(low, -math.inf), high, -1), (low * (1 - 1e-12), high, -1), (low, math.nextafter(high, math.inf), +1),
+                (low, high * (1 + 1e-12), +1), (low, high, 0), (math.nextafter(low, math.inf), math.nextafter(high, -math.inf), 0),
+                (0.1 + 0.2 if low == 0.3 else low, 0.1 + 0.2 if high == 0.3 else high, +1 if high == 0.3 else 0),
+            ):
+                m += 1
+                pool = RecPool(demand=100.0, supply=1.0, utilisation=util, allocation=alloc)
+                LinearController(pool, low_utilisation=low, high_allocation=high, rate=rate, interval=interval).regulate(interval)
+                want = 100.0 + sign * rate * interval
+                if pool.demand != want:
+                    errs.append({"harness": "linear_ieee_neighbours", "label": "direction and amount at IEEE neighbours of the thresholds",
+                                 "inputs": {"low": low, "high": high, "utilisation": util, "allocation": alloc, "rate": rate,
+                                            "interval": interval, "got": pool.demand, "want": want},
+                                 "params": {}, "status": "confirmed", "property": PROPERTY, "kind": "custom", "module": MOD})
+    return {"violations": errs, "switch_ctor_rejections_checked": n, "linear_ieee_neighbour_states": m}
 
 
 def replay(v):
     r = extra("quick", 0)
-    hit = [x for x in r["violations"] if x["label"] == v["label"]]
+    hit = [x for x in r["violations"] if x["label"] == v["label"] and (v.get("harness") != "linear_ieee_neighbours" or x["inputs"] == v["inputs"])]
     print("REPRODUCED" if hit else "not reproduced on this tree")
     return 1 if hit else 0
 
